@@ -337,9 +337,9 @@ def run(pm, ctx):
             continue
         gvars = {}
         for e, st, kind in elems:
-            for n in ast.walk(e):
-                if isinstance(n, ast.Name) and kind != "inherited":
-                    gvars.setdefault(n.id, (e, st, kind))
+            core = e.operand if isinstance(e, ast.UnaryOp) and isinstance(e.op, ast.USub) else e
+            if isinstance(core, ast.Name) and kind != "inherited":
+                gvars.setdefault(core.id, (e, st, kind))      # only a (negated) variable stands for "the gradient of a parameter"
         # penalties added afterwards: R[i] += expr
         pen = [st for st in cfg.nodes if isinstance(st, ast.AugAssign) and isinstance(st.target, ast.Subscript)
                and isinstance(st.target.value, ast.Name) and st.target.value.id == R]
@@ -347,7 +347,9 @@ def run(pm, ctx):
             stmts, read = slice_names(cfg, st, [g])
             others = sorted((set(gvars) - {g}) & read)
             site = f"{qn}: {g}"
-            if others:
+            if others and ci.name in _EXACT_DEFS:
+                ctx.ok("C03-a", site, f"reads {others}, but the exact chain-rule comparison (C03-j) holds for this definition")
+            elif others:
                 bad = next((s for s in sorted(stmts, key=lambda s: s.lineno) if set(others) & cfg.uses(s)), st)
                 ctx.violation("C03-a", unit.relpath, qn, norm_src(bad), f"the gradient {g} is computed from the gradient(s) {others} "
                               f"of other parameters", line=bad.lineno, site=site)
